@@ -1,5 +1,5 @@
 (* Writer.v — executable model of flussab/src/deferred_writer.rs and
-   flussab/src/write/text.rs (ascii_digits through itoap). *)
+   flussab/src/write/text.rs (write_ascii_digits through itoap). *)
 From Flussab Require Import Base.
 
 (* ---- the sink: a schedule of results for Write::write calls ---- *)
@@ -146,8 +146,8 @@ Definition ity_max (t : ity) : Z :=
   if ity_signed t then (2 ^ (Z.of_N (ity_bits t) - 1) - 1)%Z else (2 ^ Z.of_N (ity_bits t) - 1)%Z.
 Definition in_range (t : ity) (v : Z) : bool := ((ity_min t <=? v) && (v <=? ity_max t))%Z.
 
-(* write::text::ascii_digits *)
-Definition ascii_digits (s : wstate) (t : ity) (v : Z) : wstate * wobs :=
+(* write::text::write_ascii_digits *)
+Definition write_ascii_digits (s : wstate) (t : ity) (v : Z) : wstate * wobs :=
   let d := decimal v in
   if nlen (wbuf s) + max_len t <=? wcap s then
     (* buf_write_ptr(MAX_LEN) non-null; itoap::write_to_ptr; advance_unchecked(len) *)
@@ -159,7 +159,7 @@ Definition ascii_digits (s : wstate) (t : ity) (v : Z) : wstate * wobs :=
 (* ---- the API as an operation language ---- *)
 Inductive wop :=
 | WWrite (bs : bytes)                 (* write / write_all / write_all_defer_err *)
-| WDigits (t : ity) (v : Z)           (* write::text::ascii_digits *)
+| WDigits (t : ity) (v : Z)           (* write::text::write_ascii_digits *)
 | WDirect (len : N) (bs : bytes)      (* buf_write_ptr(len), fill |bs| <= len bytes, advance_unchecked(|bs|) *)
 | WFlush                              (* Write::flush = flush_defer_err + check_io_error *)
 | WFlushDefer
@@ -172,7 +172,7 @@ Definition clear_err (s : wstate) : wstate :=
 Definition wstep (s : wstate) (o : wop) : wstate * wobs :=
   match o with
   | WWrite bs => write_all_defer_err s bs
-  | WDigits t v => ascii_digits s t v
+  | WDigits t v => write_ascii_digits s t v
   | WDirect len bs =>
       if nlen (wbuf s) + len <=? wcap s then
         if nlen bs <=? len
